@@ -97,7 +97,7 @@ for _le, _f, _codes, _tier in ((1, 5, (5, 9), 'quick'), (0, 9, (5, 9), 'quick'),
     _a = skel(_le, 32, 16, [(16, 'u'), (24, 'u')]) + 'in_buf[16]=%d;in_buf[24]=%d;' % _codes
     UNITS.append(dict(name='C12.set_fixed.f%d.%s32' % (_f, 'le' if _le else 'be'), props=['C12', 'C14'], kind='B', route='stub',
                       tus=[dict(file=HDR, include_as='VERIF_TU'), dict(file=STR), dict(file=BASIC), dict(file=REC), dict(file=SIG)],
-                      harness='harness/c12_setfixed.c', extra_sources=[ASSERT, 'stubs/c07_mem.c'], defines=['VERIF_N=32', 'VERIF_FIELD=%d' % _f, 'VERIF_HDR_ASSUME=%s' % _a],
+                      harness='harness/c12_setfixed.c', extra_sources=[ASSERT, 'stubs/c07_mem.c'], defines=['VERIF_N=32', 'VERIF_FIELD=%d' % _f, 'VERIF_VAT=%d' % (20 + 8 * _codes.index(_f)), 'VERIF_HDR_ASSUME=%s' % _a],
                       replace_calls=PAD_STUBS, unwind=35, timeout=2400, tier=_tier, expect_s=200,
                       bounds={'header_bytes': 32, 'skeleton': ('little' if _le else 'big') + ' endian, two UINT32 fields with codes %d,%d (values, message type, flags, serial symbolic)' % _codes,
                               'edit': 'set field %d (UINT32) that already exists: in-place branch only' % _f},
